@@ -1,29 +1,16 @@
-(** * Scalar side of the XPath evaluator: the one place where [Model/XPathEval.v] touches
-    numbers, number <-> string conversion and the functions of xpath/src/eval/func.rs that do
-    not look at the document.
+(** * Scalar side of the XPath evaluator: the one place where [Model/XPathEval.v] meets the
+    model of the scalar function library, [Model/XPathFuncs.v] (xpath/src/eval/func.rs and the
+    conversions of eval/model.rs, as repaired for D30-D34; property C09), and the function table
+    regenerated from func.rs by translator T3 ([Gen/FuncTableGen.v]).
 
-    The binary64 arithmetic is [Base/Float64.v].  Everything else below is a thin model of
-    xpath/src/eval/model.rs ([TryFrom<&Value>] for [String], [bool], [f64]; the operators) and
-    of the string / number functions of func.rs AS THEY ARE on the branch this evaluator model
-    is tied to (byte lengths, Rust's [f64] grammar for [number()], [0 - x] for unary minus,
-    [round] away from zero: the defects D30-D34 belong to the scalar library, property C09,
-    and are repaired and specified there; when those repairs land, only this file changes).
-
-    Node-sets reach this file abstracted to the list of the string-values of their nodes
-    ([VNodes]), which is all a scalar function can see of them.  No proofs here. *)
+    Node-sets reach the scalar functions abstracted to the list of the string-values of their
+    nodes ([VNodes]), which is all such a function can see of them.  No proofs here. *)
 From Coq Require Import List NArith ZArith Bool.
 From Coq Require Import Floats.SpecFloat.
-From XmlRs Require Import Base.CPred Base.Float64 Base.Utf8.
+From XmlRs Require Import Base.CPred Base.Float64.
+From XmlRs Require Import Spec.XPathCore Gen.FuncTableGen Model.XPathFuncs.
 Import ListNotations.
 Open Scope N_scope.
-
-(** ** strings *)
-Fixpoint str_eqb (a b : str) : bool :=
-  match a, b with
-  | [], [] => true
-  | x :: a', y :: b' => (x =? y) && str_eqb a' b'
-  | _, _ => false
-  end.
 
 Definition ostr_eqb (a b : option str) : bool :=
   match a, b with
@@ -32,203 +19,10 @@ Definition ostr_eqb (a b : option str) : bool :=
   | _, _ => false
   end.
 
-Fixpoint starts_with (s p : str) : bool :=
-  match p, s with
-  | [], _ => true
-  | y :: p', x :: s' => (x =? y) && starts_with s' p'
-  | _ :: _, [] => false
-  end.
+(** [f64::try_from(&Value::Text(s))] *)
+Definition str_to_number (s : str) : f64 := m_string_to_number s.
 
-(** [str::split_once(pat)]: first occurrence, [None] when absent (the empty pattern matches at 0) *)
-Fixpoint split_once (s p : str) : option (str * str) :=
-  if starts_with s p then Some ([], skipn (length p) s)
-  else match s with
-       | [] => None
-       | x :: t => match split_once t p with
-                   | Some (a, b) => Some (x :: a, b)
-                   | None => None
-                   end
-       end.
-
-Definition contains (s p : str) : bool :=
-  match split_once s p with Some _ => true | None => false end.
-
-(** [char::is_whitespace] (Unicode White_Space) *)
-Definition is_whitespace (c : char) : bool :=
-  ((9 <=? c) && (c <=? 13)) || (c =? 32) || (c =? 0x85) || (c =? 0xA0) || (c =? 0x1680)
-  || ((0x2000 <=? c) && (c <=? 0x200A)) || (c =? 0x2028) || (c =? 0x2029) || (c =? 0x202F)
-  || (c =? 0x205F) || (c =? 0x3000).
-
-(** [split_whitespace().collect::<Vec<_>>().join(" ")] *)
-Fixpoint split_ws (s : str) (cur : str) : list str :=
-  match s with
-  | [] => match cur with [] => [] | _ => [rev cur] end
-  | c :: t =>
-      if is_whitespace c then
-        match cur with [] => split_ws t [] | _ => rev cur :: split_ws t [] end
-      else split_ws t (c :: cur)
-  end.
-
-Fixpoint join_sp (l : list str) : str :=
-  match l with
-  | [] => []
-  | [w] => w
-  | w :: t => w ++ 32 :: join_sp t
-  end.
-
-Definition normalize_space (s : str) : str := join_sp (split_ws s []).
-
-Fixpoint position_of (c : char) (s : str) (k : nat) : option nat :=
-  match s with
-  | [] => None
-  | x :: t => if x =? c then Some k else position_of c t (S k)
-  end.
-
-Fixpoint translate (s1 s2 s3 : str) : str :=
-  match s1 with
-  | [] => []
-  | c :: t =>
-      match position_of c s2 0 with
-      | Some k => match nth_error s3 k with
-                  | Some r => r :: translate t s2 s3
-                  | None => translate t s2 s3
-                  end
-      | None => c :: translate t s2 s3
-      end
-  end.
-
-Definition ascii_lower (c : char) : char := if (65 <=? c) && (c <=? 90) then c + 32 else c.
-
-(** ** Rust [str::parse::<f64>()] (core::num::dec2flt): [sign] (digits [. digits] | . digits)
-    [(e|E) [sign] digits] | [sign] (inf | infinity | nan) case-insensitively; nothing else, no
-    white space.  Correctly rounded ([f64_of_decimal]). *)
-Definition is_digit (c : char) : bool := (48 <=? c) && (c <=? 57).
-
-Fixpoint take_digits (s : str) (acc : Z) (n : Z) : Z * Z * str :=
-  match s with
-  | c :: t => if is_digit c then take_digits t (10 * acc + Z.of_N (c - 48))%Z (n + 1)%Z
-              else (acc, n, s)
-  | [] => (acc, n, s)
-  end.
-
-Definition parse_exp (s : str) : option Z :=
-  match s with
-  | [] => Some 0%Z
-  | c :: t =>
-      if (c =? 101) || (c =? 69) then
-        let '(neg, t') := match t with
-                          | 45 :: r => (true, r)
-                          | 43 :: r => (false, r)
-                          | _ => (false, t)
-                          end in
-        let '(v, n, rest) := take_digits t' 0%Z 0%Z in
-        match rest with
-        | [] => if (n =? 0)%Z then None else Some (if neg then (- v)%Z else v)
-        | _ => None
-        end
-      else None
-  end.
-
-Definition rust_parse_f64 (s : str) : option f64 :=
-  let '(neg, body) := match s with
-                      | 45 :: r => (true, r)
-                      | 43 :: r => (false, r)
-                      | _ => (false, s)
-                      end in
-  let low := map ascii_lower body in
-  if str_eqb low [105;110;102] || str_eqb low [105;110;102;105;110;105;116;121]
-  then Some (S754_infinity neg)
-  else if str_eqb low [110;97;110] then Some S754_nan
-  else
-    let '(ip, ni, r1) := take_digits body 0%Z 0%Z in
-    let '(fp, nf, r2) := match r1 with
-                         | 46 :: r => take_digits r ip 0%Z
-                         | _ => (ip, 0%Z, r1)
-                         end in
-    if ((ni + nf) =? 0)%Z then None
-    else match parse_exp r2 with
-         | Some e => Some (f64_of_decimal neg fp (e - nf)%Z)
-         | None => None
-         end.
-
-(** Rust [f64::to_string()] ([Display]): shortest digits that read back, never an exponent *)
-Definition rust_f64_to_string (x : f64) : str :=
-  match x with
-  | S754_nan => [78;97;78]
-  | S754_infinity false => [105;110;102]
-  | S754_infinity true => [45;105;110;102]
-  | S754_zero false => [48]
-  | S754_zero true => [45;48]
-  | S754_finite s _ _ => (if s then [45] else []) ++ f64_fmt_decimal x
-  end.
-
-(** ** values as scalar functions see them *)
-Inductive value :=
-| VBool (b : bool) | VNum (x : f64) | VStr (s : str)
-| VNodes (l : list str).          (* the string-values of the nodes, in order *)
-
-Inductive fres :=
-| ROk (v : value)
-| RInvalidType
-| RInvalidArgumentCount
-| RNotFoundFunction
-| RPanic.
-
-Definition s_true : str := [116;114;117;101].
-Definition s_false : str := [102;97;108;115;101].
-Definition s_Infinity : str := [73;110;102;105;110;105;116;121].
-
-(** [String::try_from(&Value)] *)
-Definition model_to_string (v : value) : str :=
-  match v with
-  | VBool true => s_true
-  | VBool false => s_false
-  | VNodes [] => []
-  | VNodes (s :: _) => s
-  | VNum (S754_infinity false) => s_Infinity
-  | VNum (S754_infinity true) => 45 :: s_Infinity
-  | VNum x => rust_f64_to_string x
-  | VStr s => s
-  end.
-
-Definition str_to_number (s : str) : f64 :=
-  match rust_parse_f64 s with Some x => x | None => f64_nan end.
-
-(** [f64::try_from(&Value)] *)
-Definition model_to_number (v : value) : f64 :=
-  match v with
-  | VBool true => f64_one
-  | VBool false => f64_zero
-  | VNodes _ => str_to_number (model_to_string v)
-  | VNum x => x
-  | VStr s => str_to_number s
-  end.
-
-(** [bool::try_from(&Value)] *)
-Definition model_to_bool (v : value) : bool :=
-  match v with
-  | VBool b => b
-  | VNodes l => match l with [] => false | _ => true end
-  | VNum x => negb (f64_eqb x f64_zero || f64_is_nan x)
-  | VStr s => match s with [] => false | _ => true end
-  end.
-
-(** ** operators on values (impl Add/Sub/Mul/Div/Rem/Neg for Value) *)
-Definition model_add (a b : value) : f64 := f64_add (model_to_number a) (model_to_number b).
-Definition model_sub (a b : value) : f64 := f64_sub (model_to_number a) (model_to_number b).
-Definition model_mul (a b : value) : f64 := f64_mul (model_to_number a) (model_to_number b).
-Definition model_div (a b : value) : f64 := f64_div (model_to_number a) (model_to_number b).
-Definition model_rem (a b : value) : f64 := f64_rem (model_to_number a) (model_to_number b).
-(** [Neg]: [0f64 - a] *)
-Definition model_neg (a : value) : f64 := f64_sub f64_zero (model_to_number a).
-
-(** ** the functions of func.rs that need neither the document nor the context stacks.
-    [ctx_sv] is the string-value of the context node (used by the zero-argument forms).
-    The arity has been checked by the caller ([eval_func_expr]). *)
-Definition arg_or_ctx (ctx_sv : str) (args : list value) : value :=
-  match args with [] => VNodes [ctx_sv] | a :: _ => a end.
-
-(** names as code points *)
+(** names of the functions that do not look at the document, as code points *)
 Definition fn_string : str := [115;116;114;105;110;103].
 Definition fn_concat : str := [99;111;110;99;97;116].
 Definition fn_starts_with : str := [115;116;97;114;116;115;45;119;105;116;104].
@@ -248,80 +42,28 @@ Definition fn_floor : str := [102;108;111;111;114].
 Definition fn_ceiling : str := [99;101;105;108;105;110;103].
 Definition fn_round : str := [114;111;117;110;100].
 
-(** [substring]: [round() as usize - 1] (debug profile: underflow panics), byte offsets through
-    [split_at] (panics past the end or inside a character) -- D30 as found *)
-Definition substring_model (v : str) (a : f64) (c : option f64) : fres :=
-  let s1 := f64_to_usize (f64_round_away a) in
-  if s1 =? 0 then RPanic
-  else match split_at_bytes v (s1 - 1) with
-       | None => RPanic
-       | Some (_, r) =>
-           match c with
-           | None => ROk (VStr r)
-           | Some cf =>
-               match split_at_bytes r (f64_to_usize (f64_round_away cf)) with
-               | None => RPanic
-               | Some (r', _) => ROk (VStr r')
-               end
-           end
-       end.
-
+(** the scalar functions by name ([ctx_sv] = string-value of the context node, used by the
+    zero-argument forms); the arity has been checked by the caller ([eval_func_expr]) *)
 Definition scalar_fn (ctx_sv : str) (name : str) (args : list value) : fres :=
-  if str_eqb name fn_string then ROk (VStr (model_to_string (arg_or_ctx ctx_sv args)))
-  else if str_eqb name fn_concat then ROk (VStr (concat (map model_to_string args)))
-  else if str_eqb name fn_starts_with then
-    match args with
-    | a :: b :: _ => ROk (VBool (starts_with (model_to_string a) (model_to_string b)))
-    | _ => RPanic end
-  else if str_eqb name fn_contains then
-    match args with
-    | a :: b :: _ => ROk (VBool (contains (model_to_string a) (model_to_string b)))
-    | _ => RPanic end
-  else if str_eqb name fn_substring_before then
-    match args with
-    | a :: b :: _ => ROk (VStr (match split_once (model_to_string a) (model_to_string b) with
-                                | Some (x, _) => x | None => [] end))
-    | _ => RPanic end
-  else if str_eqb name fn_substring_after then
-    match args with
-    | a :: b :: _ => ROk (VStr (match split_once (model_to_string a) (model_to_string b) with
-                                | Some (_, y) => y | None => [] end))
-    | _ => RPanic end
-  else if str_eqb name fn_substring then
-    match args with
-    | a :: b :: rest =>
-        substring_model (model_to_string a) (model_to_number b)
-          (match rest with c :: _ => Some (model_to_number c) | [] => None end)
-    | _ => RPanic end
-  else if str_eqb name fn_string_length then
-    ROk (VNum (f64_of_N (byte_len (model_to_string (arg_or_ctx ctx_sv args)))))
-  else if str_eqb name fn_normalize_space then
-    ROk (VStr (normalize_space (model_to_string (arg_or_ctx ctx_sv args))))
-  else if str_eqb name fn_translate then
-    match args with
-    | a :: b :: c :: _ => ROk (VStr (translate (model_to_string a) (model_to_string b) (model_to_string c)))
-    | _ => RPanic end
-  else if str_eqb name fn_boolean then
-    match args with a :: _ => ROk (VBool (model_to_bool a)) | _ => RPanic end
-  else if str_eqb name fn_not then
-    match args with a :: _ => ROk (VBool (negb (model_to_bool a))) | _ => RPanic end
-  else if str_eqb name fn_true then ROk (VBool true)
-  else if str_eqb name fn_false then ROk (VBool false)
-  else if str_eqb name fn_number then ROk (VNum (model_to_number (arg_or_ctx ctx_sv args)))
-  else if str_eqb name fn_floor then
-    match args with a :: _ => ROk (VNum (f64_floor (model_to_number a))) | _ => RPanic end
-  else if str_eqb name fn_ceiling then
-    match args with a :: _ => ROk (VNum (f64_ceil (model_to_number a))) | _ => RPanic end
-  else if str_eqb name fn_round then
-    match args with a :: _ => ROk (VNum (f64_round_away (model_to_number a))) | _ => RPanic end
-  else RNotFoundFunction.
+  if str_eqb name fn_string then m_string ctx_sv args
+  else if str_eqb name fn_concat then m_concat ctx_sv args
+  else if str_eqb name fn_starts_with then m_starts_with ctx_sv args
+  else if str_eqb name fn_contains then m_contains ctx_sv args
+  else if str_eqb name fn_substring_before then m_substring_before ctx_sv args
+  else if str_eqb name fn_substring_after then m_substring_after ctx_sv args
+  else if str_eqb name fn_substring then m_substring ctx_sv args
+  else if str_eqb name fn_string_length then m_string_length ctx_sv args
+  else if str_eqb name fn_normalize_space then m_normalize_space ctx_sv args
+  else if str_eqb name fn_translate then m_translate ctx_sv args
+  else if str_eqb name fn_boolean then m_boolean ctx_sv args
+  else if str_eqb name fn_not then m_not ctx_sv args
+  else if str_eqb name fn_true then m_ftrue ctx_sv args
+  else if str_eqb name fn_false then m_ffalse ctx_sv args
+  else if str_eqb name fn_number then m_number ctx_sv args
+  else if str_eqb name fn_floor then m_floor ctx_sv args
+  else if str_eqb name fn_ceiling then m_ceiling ctx_sv args
+  else if str_eqb name fn_round then m_round ctx_sv args
+  else RErr ENotFoundFunction.
 
-(** the functions [scalar_fn] answers, with the inclusive arity bounds of [func::table()]
-    ([None] = unbounded) *)
-Definition scalar_table : list (str * N * option N) :=
-  [ (fn_string, 0, Some 1); (fn_concat, 2, None); (fn_starts_with, 2, Some 2);
-    (fn_contains, 2, Some 2); (fn_substring_before, 2, Some 2); (fn_substring_after, 2, Some 2);
-    (fn_substring, 2, Some 3); (fn_string_length, 0, Some 1); (fn_normalize_space, 0, Some 1);
-    (fn_translate, 3, Some 3); (fn_boolean, 1, Some 1); (fn_not, 1, Some 1); (fn_true, 0, Some 0);
-    (fn_false, 0, Some 0); (fn_number, 0, Some 1); (fn_floor, 1, Some 1); (fn_ceiling, 1, Some 1);
-    (fn_round, 1, Some 1) ].
+(** func::table() as regenerated from the source: (name, min, max), bounds inclusive *)
+Definition func_table : list (str * N * option N) := FuncTableGen.table.
